@@ -20,7 +20,7 @@ func C01(r *core.Report) {
 		"R2 section length definition - the CAR reader returns payload length + the width of the length varint, where the width is the number of bytes actually consumed by the varint decode (a byte counter wrapped around the same reader), and Next* forward that value unchanged; " +
 		"R3 value codec agreement for the four typed indexes: the value size given to the builder equals the sum of the widths of the pieces concatenated by Put, which equals the length accepted and the split points used by the reader, and Put guards the ranges of the packed integers; " +
 		"R4 goroutines launched by the same errgroup do not assign the same captured variable (a failed Seal must not be overwritten by a sibling's nil); R5 every index writer created by `index all` receives inserts in the read loop and its Seal/WriteTo error reaches the function's error return; no error of those writers is discarded. " +
-		"R7 in the packages that write index files (blocktimeindex, indexes, bucketteer) every narrowing conversion of a non-constant integer is dominated by a range guard or listed with its invariant (tables/c01_narrow_exempt.json): a block time, offset or count that does not fit makes generation fail instead of being stored truncated. R8 no guard of the server sends an offset EQUAL to the CAR header size to an error (the first object of every CAR sits exactly there). R9 payload bytes handed out do not alias a pooled buffer (the C14.R5 rule, repo-wide). R10 the parsed CAR header is kept exactly as read (HeaderSize re-encodes it; the first offset is that size). R11 the sig-exists reader's 'no bucket' offset is not an offset the writer can assign (same rule as C05.R10). R12 the sig-exists index that index-all seals finds every signature it was given: buckets sorted ascending, laid out and searched in the same orientation, the layout pass applied to every bucket (same rule as C05.R6). Not decided: hashing/offset arithmetic for concrete CARs, bucket boundaries, the server-side fetch (C03/C10)."
+		"R7 in the packages that write index files (blocktimeindex, indexes, bucketteer) every narrowing conversion of a non-constant integer is dominated by a range guard or listed with its invariant (tables/c01_narrow_exempt.json): a block time, offset or count that does not fit makes generation fail instead of being stored truncated. R8 no guard of the server sends an offset EQUAL to the CAR header size to an error (the first object of every CAR sits exactly there). R9 payload bytes handed out do not alias a pooled buffer (the C14.R5 rule, repo-wide). R10 the parsed CAR header is kept exactly as read (HeaderSize re-encodes it; the first offset is that size). R11 the sig-exists reader's 'no bucket' offset is not an offset the writer can assign (same rule as C05.R10). R12 the sig-exists index that index-all seals finds every signature it was given: buckets sorted ascending, laid out and searched in the same orientation, the layout pass applied to every bucket (same rule as C05.R6). Not decided: hashing/offset arithmetic for concrete CARs, bucket boundaries, the server-side fetch (C03/C10). R13 the loader of the block-time index widens what it reads as unsigned (the writer stores unsigned 32-bit values): every value stored into Index.values by the decoder is a conversion of an unsigned expression with no signed step in between - a []int32 bulk decode turns every time from 2^31 on negative."
 	r.Assumptions = []string{"a CIDv1 sha2-256 dag-cbor CID is 36 bytes (table fact)", "binary.ReadUvarint reads through the io.ByteReader it is given"}
 	c01Offsets(r)
 	c01SectionLength(r)
@@ -30,6 +30,8 @@ func C01(r *core.Report) {
 	// searched in the same orientation, the layout pass applied to every bucket (same rule as C05.R6)
 	orientationRule(r, "C01.R12", "bucketteer")
 	c01ScratchDirsUnique(r)
+	c01BlockTimesDecodedUnsigned(r)
+	r.Floor("C01.R13", 1)
 	r.Floor("C01.R6", 1)
 	c01WriterNarrowing(r)
 	c01NoGuardRejectsFirstObject(r)
